@@ -319,6 +319,11 @@ class StochasticActor(EvolvableNetwork):
         :return: Scaled action.
         :rtype: torch.Tensor
         """
+        # NOTE: get_action() and the training loops pass numpy actions
+        if not isinstance(action, torch.Tensor):
+            low, high = self.action_space.low, self.action_space.high
+            return low + (0.5 * (action + 1.0) * (high - low))
+
         return self.action_low + (
             0.5 * (action + 1.0) * (self.action_high - self.action_low)
         )
